@@ -201,6 +201,14 @@ def c02(ck):
         ck.replay(cases)
         ck.extra.setdefault("bounds", {})[fam] = consts
     ck.extra["model_dangerous_histories"] = total_danger
+    # values held by closures, atoms and rest-parameter lists (GenC02b), from forms and from text
+    rb = ck.tlc("GenC02b", cfg(), timeout=600)
+    ck.tlc_ok(rb, "GenC02b")
+    held = []
+    for c_ in rb.cases:
+        held.append(dict(c_, id="held-ast:" + c_["src"][:60]))
+        held.append(dict(c_, id="held-text:" + c_["src"][:60], opt={"route": "text"}))
+    ck.replay(held)
     ck.exhaustive = True
     # direction B: long random histories with fan-out (every earlier name traced after every step)
     random_programs(ck, 300 if q else 6000, 8, seed_offset=202, mode="hist")
